@@ -4,6 +4,7 @@
   entirely or not at all, the commit in flight; the next open succeeds and shows exactly that.
 -/
 import Nervus.Proofs.CrashClose
+import Nervus.Proofs.CrashCreate
 namespace Nervus.Crash
 
 /-- files as a crash (or a dropped handle) leaves them -/
@@ -24,6 +25,19 @@ theorem closed_of_safe {Ts : List (List Tx)} {fs : FS} (h : SafeFS Ts fs) (mode 
   obtain ⟨T, hT, hr⟩ := h mode
   exact ⟨T, hT, crash_flat fs mode, hr⟩
 
+/-- a database whose creation may have been cut short (at any step, any number of times), or that
+    was never created: flat files, an empty log, a nascent page file -/
+structure Nascent (fs : FS) : Prop where
+  flat : Flat fs
+  log : fs.wf = []
+  page : NascentP fs.pd
+
+/-- what an incarnation starts from: files that represent `T`, or (for the empty list) a nascent database -/
+def Start (T : List Tx) (fs : FS) : Prop := Closed T fs ∨ (T = [] ∧ Nascent fs)
+
+theorem nascent_empty : Nascent ({} : FS) :=
+  ⟨⟨rfl, ⟨rfl, rfl⟩⟩, rfl, ⟨⟨rfl, rfl, rfl, rfl, rfl, Nat.le_refl _, Nat.le_refl _⟩, Or.inl rfl⟩⟩
+
 /-- the files at the moment of death at I/O step `k` (all steps performed if `k` is past the end) -/
 theorem run_crash_fs (acts : List Action) (k : Nat) (fs : FS) (m : Mem) :
     (run acts (.crashAt k) fs m).fs = fs.steps ((ioSteps acts).take k) := by
@@ -41,6 +55,29 @@ theorem run_none (acts : List Action) (fs : FS) (m : Mem) :
   unfold run
   rw [runActs_none]
   exact ⟨rfl, rfl, rfl⟩
+
+/-- **open from any start**: it succeeds, every crash image at every step is again a start for the
+    same list, and the handle satisfies the invariant -/
+theorem open_start {cfg : Cfg} (hsync : cfg.syncSlot = true) (hfz : cfg.freshZero = true) (hsc : cfg.syncCreate = true)
+    {T : List Tx} {fs : FS} (hs : Start T fs) :
+    failOf (openA cfg fs.pv fs.wf) = none ∧
+    (∀ n mode, Start T ((fs.steps ((ioSteps (openA cfg fs.pv fs.wf)).take n)).crash mode)) ∧
+    (fs.steps (ioSteps (openA cfg fs.pv fs.wf))).wf = fs.wf ∧
+    ∃ cs c, InvOpen T (fs.steps (ioSteps (openA cfg fs.pv fs.wf)))
+      ((memUpds (openA cfg fs.pv fs.wf)).foldl applyUpd {}) cs c ∧
+      ((memUpds (openA cfg fs.pv fs.wf)).foldl applyUpd {}).tailChecked = false := by
+  rcases hs with hc | ⟨rfl, hn⟩
+  · obtain ⟨hfail, sa, hw, cs, c, hinv, htc⟩ := open_safe (cfg := cfg) hsync hc.flat.pj hc.flat.quiet hc.rep
+    refine ⟨hfail, ?_, hw, cs, c, hinv, htc⟩
+    intro n mode
+    obtain ⟨T', hT', hcl⟩ := closed_of_safe (sa n) mode
+    simp only [List.mem_singleton] at hT'
+    subst hT'
+    exact Or.inl hcl
+  · obtain ⟨hfail, sa, hw, hinv, htc⟩ := create_safe (cfg := cfg) hfz hsc fs hn.flat.pj hn.flat.quiet hn.log hn.page
+    refine ⟨hfail, ?_, hw, [], 0, hinv, htc⟩
+    intro n mode
+    exact Or.inr ⟨rfl, crash_flat _ mode, (sa n mode).2, (sa n mode).1⟩
 
 /-! ### freshness of external ids along a history -/
 
@@ -205,12 +242,13 @@ theorem tailPre_after_open {cfg : Cfg} {fs fsO : FS} {mO : Mem} (hw : fsO.wf = f
   · right; simp [h, htc]
   · left; rw [hw]; exact h
 
-theorem round_safe {cfg : Cfg} (hsync : cfg.syncSlot = true) (T : List Tx) (fs : FS) (seen : List Nat) (r : Round)
-    (hc : Closed T fs) (hsub : ∀ x ∈ allNodes T, x ∈ seen) (htail : TailCond cfg fs) (hfr : FreshAll seen r.txs)
+theorem round_safe {cfg : Cfg} (hsync : cfg.syncSlot = true) (hfz : cfg.freshZero = true) (hsc : cfg.syncCreate = true)
+    (T : List Tx) (fs : FS) (seen : List Nat) (r : Round)
+    (hc : Start T fs) (hsub : ∀ x ∈ allNodes T, x ∈ seen) (htail : TailCond cfg fs) (hfr : FreshAll seen r.txs)
     (hcond : r.cond cfg fs) :
-    ∃ T', StepT T r.obs T' ∧ Closed T' (r.after cfg fs) ∧
+    ∃ T', StepT T r.obs T' ∧ Start T' (r.after cfg fs) ∧
       (∀ x ∈ allNodes T', x ∈ seen ++ r.txs.flatMap (·.nodes)) := by
-  obtain ⟨hfail, saO, hwO, csO, cO, hInvO, htcO⟩ := open_safe (cfg := cfg) hsync hc.flat.pj hc.flat.quiet hc.rep
+  obtain ⟨hfail, saO, hwO, csO, cO, hInvO, htcO⟩ := open_start (cfg := cfg) hsync hfz hsc hc
   obtain ⟨o1, o2, o3⟩ := run_none (openA cfg fs.pv fs.wf) fs {}
   have htpO : TailPre cfg (fs.steps (ioSteps (openA cfg fs.pv fs.wf)))
       ((memUpds (openA cfg fs.pv fs.wf)).foldl applyUpd {}) := tailPre_after_open hwO htcO htail
@@ -218,10 +256,7 @@ theorem round_safe {cfg : Cfg} (hsync : cfg.syncSlot = true) (T : List Tx) (fs :
   | inOpen k =>
     have hafter : r.after cfg fs = (fs.steps ((ioSteps (openA cfg fs.pv fs.wf)).take k)).crash r.mode := by
       simp [Round.after, hd, run_crash_fs]
-    obtain ⟨T', hT', hcl⟩ := closed_of_safe (saO k) r.mode
-    simp only [List.mem_singleton] at hT'
-    subst hT'
-    refine ⟨T', Or.inl (by simp [Round.obs, hd]), by rw [hafter]; exact hcl, ?_⟩
+    refine ⟨T, Or.inl (by simp [Round.obs, hd]), by rw [hafter]; exact saO k r.mode, ?_⟩
     intro x hx
     exact List.mem_append_left _ (hsub x hx)
   | idle =>
@@ -240,7 +275,7 @@ theorem round_safe {cfg : Cfg} (hsync : cfg.syncSlot = true) (T : List Tx) (fs :
     obtain ⟨T', hT', hcl⟩ := closed_of_safe hsafe r.mode
     simp only [List.mem_singleton] at hT'
     subst hT'
-    exact ⟨T ++ commitsOf r.ops, Or.inl (by simp [Round.obs, hd]), by rw [hafter]; exact hcl, by rw [htxs]; exact hsub'⟩
+    exact ⟨T ++ commitsOf r.ops, Or.inl (by simp [Round.obs, hd]), by rw [hafter]; exact Or.inl hcl, by rw [htxs]; exact hsub'⟩
   | inCommit tx k =>
     have htxs : r.txs = commitsOf r.ops ++ [tx] := by simp [Round.txs, hd]
     rw [htxs] at hfr
@@ -259,7 +294,7 @@ theorem round_safe {cfg : Cfg} (hsync : cfg.syncSlot = true) (T : List Tx) (fs :
     have hafter : r.after cfg fs = (s.1.steps ((ioSteps (commitA cfg s.2 s.1.pv s.1.wf tx)).take k)).crash r.mode := by
       simp [Round.after, hd, o1, o2, hS, run_crash_fs]
     obtain ⟨T', hT', hcl⟩ := closed_of_safe (sa k) r.mode
-    refine ⟨T', ?_, by rw [hafter]; exact hcl, ?_⟩
+    refine ⟨T', ?_, by rw [hafter]; exact Or.inl hcl, ?_⟩
     · simp only [List.mem_cons, List.mem_nil_iff, or_false] at hT'
       rcases hT' with rfl | rfl
       · exact Or.inl (by simp [Round.obs, hd])
@@ -300,7 +335,7 @@ theorem round_safe {cfg : Cfg} (hsync : cfg.syncSlot = true) (T : List Tx) (fs :
     simp only [List.mem_singleton] at hT'
     subst hT'
     exact ⟨T ++ commitsOf r.ops, Or.inl (by simp [Round.obs, hd]),
-      by rw [hafter]; exact ⟨crash_flat _ _, hr⟩, by rw [htxs]; exact hsub'⟩
+      by rw [hafter]; exact Or.inl ⟨crash_flat _ _, hr⟩, by rw [htxs]; exact hsub'⟩
   | inClose k =>
     have htxs : r.txs = commitsOf r.ops := by simp [Round.txs, hd]
     rw [htxs] at hfr
@@ -318,7 +353,7 @@ theorem round_safe {cfg : Cfg} (hsync : cfg.syncSlot = true) (T : List Tx) (fs :
     obtain ⟨T', hT', hcl⟩ := closed_of_safe (sa k) r.mode
     simp only [List.mem_singleton] at hT'
     subst hT'
-    exact ⟨T ++ commitsOf r.ops, Or.inl (by simp [Round.obs, hd]), by rw [hafter]; exact hcl, by rw [htxs]; exact hsub'⟩
+    exact ⟨T ++ commitsOf r.ops, Or.inl (by simp [Round.obs, hd]), by rw [hafter]; exact Or.inl hcl, by rw [htxs]; exact hsub'⟩
 
 /-! ### all incarnations -/
 
@@ -348,17 +383,17 @@ instance decHistOK (cfg : Cfg) : ∀ (fs : FS) (seen : List Nat) (rounds : List 
     inferInstanceAs (Decidable (TailCond cfg fs ∧ FreshAll seen r.txs ∧ r.cond cfg fs ∧
       HistOK cfg (r.after cfg fs) (seen ++ r.txs.flatMap (·.nodes)) rest))
 
-theorem rounds_safe {cfg : Cfg} (hsync : cfg.syncSlot = true) :
+theorem rounds_safe {cfg : Cfg} (hsync : cfg.syncSlot = true) (hfz : cfg.freshZero = true) (hsc : cfg.syncCreate = true) :
     ∀ (rounds : List Round) (T : List Tx) (fs : FS) (seen : List Nat),
-      Closed T fs → (∀ x ∈ allNodes T, x ∈ seen) → HistOK cfg fs seen rounds →
-      ∃ T', Spec.Admissible T (rounds.map Round.obs) T' ∧ Closed T' (afterRounds cfg fs rounds) := by
+      Start T fs → (∀ x ∈ allNodes T, x ∈ seen) → HistOK cfg fs seen rounds →
+      ∃ T', Spec.Admissible T (rounds.map Round.obs) T' ∧ Start T' (afterRounds cfg fs rounds) := by
   intro rounds
   induction rounds with
   | nil => intro T fs seen hc _ _; exact ⟨T, Spec.Admissible.done T, hc⟩
   | cons r rest ih =>
     intro T fs seen hc hsub hok
     obtain ⟨h1, h2, h3, h4⟩ := hok
-    obtain ⟨T1, hstep, hc1, hsub1⟩ := round_safe hsync T fs seen r hc hsub h1 h2 h3
+    obtain ⟨T1, hstep, hc1, hsub1⟩ := round_safe hsync hfz hsc T fs seen r hc hsub h1 h2 h3
     obtain ⟨T', hadm, hc'⟩ := ih T1 (r.after cfg fs) _ hc1 hsub1 h4
     refine ⟨T', ?_, hc'⟩
     simp only [List.map_cons]
@@ -434,39 +469,43 @@ theorem filterMap_id_map_some (xs : List Nat) : (xs.map some).filterMap id = xs 
   | nil => rfl
   | cons x xs ih => simp [ih]
 
-theorem content_of_inv {T : List Tx} {fs : FS} {m : Mem} {cs : List CTx} {c : Nat} (h : InvOpen T fs m cs c) :
-    Spec.Content.same (content m fs.pv) (Spec.run T) := by
-  rw [spec_run_eq, h.pv]
-  refine ⟨h.mexts, ?_, ?_⟩
+/-- what a handle shows on any page-file image whose segments / tree / runs make up `T` -/
+theorem content_of_store {T : List Tx} {m : Mem} {cs : List CTx} {p : PImg} (hst : StoreOK T cs p)
+    (mexts : m.exts = allNodes T) (mruns : m.runs = logRuns (scan cs).ckpt cs)
+    (msegs : m.segs = (scan cs).segs.map (fun k => (k, segEdges p k))) (mroot : m.proot = (scan cs).proot)
+    (mptop : m.ptop = (scan cs).ptop) :
+    Spec.Content.same (content m p) (Spec.run T) := by
+  rw [spec_run_eq]
+  refine ⟨mexts, ?_, ?_⟩
   · intro e
-    have : m.segs.flatMap (·.2) = (scan cs).segs.flatMap (segEdges fs.pd) := by
-      rw [h.msegs, List.flatMap_map]
-    simp only [content, this, h.mruns]
-    exact h.store.edges e
+    have : m.segs.flatMap (·.2) = (scan cs).segs.flatMap (segEdges p) := by
+      rw [msegs, List.flatMap_map]
+    simp only [content, this, mruns]
+    exact hst.edges e
   · intro q
-    obtain ⟨cov, hc1, hc2, hc3⟩ := h.store.props
+    obtain ⟨cov, hc1, hc2, hc3⟩ := hst.props
     by_cases hr : (scan cs).proot = 0
-    · simp only [content, h.mroot, hr, if_true, List.append_nil, h.mruns]
+    · simp only [content, mroot, hr, if_true, List.append_nil, mruns]
       constructor
-      · exact h.store.runProps q
+      · exact hst.runProps q
       · intro hq
         rcases hc1 q hq with h' | h'
         · exact h'
         · rw [hc2 hr] at h'; simp at h'
     · obtain ⟨tr, hf, hto⟩ := hc3 hr
       obtain ⟨xs, pid, hl, hsrt, hall, hcov⟩ := hto.shape
-      have hfind : fs.pd.trees.find? (fun t => t.key == (scan cs).proot) = some tr := hf
+      have hfind : p.trees.find? (fun t => t.key == (scan cs).proot) = some tr := hf
       have hent : treeEntries tr = xs := by simp [treeEntries, hl, filterMap_id_map_some]
-      have hhas : ∀ q, treeHas fs.pd (scan cs).proot false q = (decide (q ∈ xs) && tr.blobs.contains q) := by
+      have hhas : ∀ q, treeHas p (scan cs).proot false q = (decide (q ∈ xs) && tr.blobs.contains q) := by
         intro q
         simp only [treeHas, hfind, Bool.false_eq_true, if_false, hl]
         congr 1
         rw [Bool.eq_iff_iff, leafFind_single xs hsrt pid q]
         simp
-      simp only [content, h.mroot, hr, if_false, h.mptop, h.store.ptop, hfind, hent, h.mruns, List.mem_append, List.mem_filter, hhas]
+      simp only [content, mroot, hr, if_false, mptop, hst.ptop, hfind, hent, mruns, List.mem_append, List.mem_filter, hhas]
       constructor
       · rintro (h' | ⟨h1, _⟩)
-        · exact h.store.runProps q h'
+        · exact hst.runProps q h'
         · exact hall q h1
       · intro hq
         rcases hc1 q hq with h' | h'
@@ -475,17 +514,23 @@ theorem content_of_inv {T : List Tx} {fs : FS} {m : Mem} {cs : List CTx} {c : Na
           obtain ⟨h1, h2⟩ := hcov q h'
           exact ⟨h1, by simp [h1, h2]⟩
 
+theorem content_of_inv {T : List Tx} {fs : FS} {m : Mem} {cs : List CTx} {c : Nat} (h : InvOpen T fs m cs c) :
+    Spec.Content.same (content m fs.pv) (Spec.run T) := by
+  rw [h.pv]
+  exact content_of_store h.store h.mexts h.mruns h.msegs h.mroot h.mptop
+
 /-- **C01 + C02 over all histories of this shape**: whatever the incarnations did and wherever
     they died, the next open succeeds and shows the content of an admissible transaction list:
     the initial one, every acknowledged commit, and — entirely or not at all — each commit that
     was in flight at a death. -/
-theorem crash_recover {cfg : Cfg} (hsync : cfg.syncSlot = true) (rounds : List Round) (T0 : List Tx) (fs0 : FS)
-    (seen : List Nat) (hc : Closed T0 fs0) (hsub : ∀ x ∈ allNodes T0, x ∈ seen) (hok : HistOK cfg fs0 seen rounds) :
+theorem crash_recover {cfg : Cfg} (hsync : cfg.syncSlot = true) (hfz : cfg.freshZero = true) (hsc : cfg.syncCreate = true)
+    (rounds : List Round) (T0 : List Tx) (fs0 : FS)
+    (seen : List Nat) (hc : Start T0 fs0) (hsub : ∀ x ∈ allNodes T0, x ∈ seen) (hok : HistOK cfg fs0 seen rounds) :
     ∃ T m fs', Spec.Admissible T0 (rounds.map Round.obs) T ∧
       recover cfg (afterRounds cfg fs0 rounds) = .ok (m, fs') ∧
       Spec.Content.same (content m fs'.pv) (Spec.run T) := by
-  obtain ⟨T, hadm, hcl⟩ := rounds_safe hsync rounds T0 fs0 seen hc hsub hok
-  obtain ⟨hfail, _, _, cs, c, hinv, _⟩ := open_safe (cfg := cfg) hsync hcl.flat.pj hcl.flat.quiet hcl.rep
+  obtain ⟨T, hadm, hcl⟩ := rounds_safe hsync hfz hsc rounds T0 fs0 seen hc hsub hok
+  obtain ⟨hfail, _, _, cs, c, hinv, _⟩ := open_start (cfg := cfg) hsync hfz hsc hcl
   obtain ⟨o1, o2, o3⟩ := run_none (openA cfg (afterRounds cfg fs0 rounds).pv (afterRounds cfg fs0 rounds).wf)
     (afterRounds cfg fs0 rounds) {}
   refine ⟨T, _, _, hadm, ?_, content_of_inv hinv⟩
